@@ -129,6 +129,7 @@ def _mk_body(sname, scfg, rig: Rig):
                  "ri_elapsed_ms": int(round(ri.elapsed_seconds * 1000)),
                  "ri_last_exc": type(ri.last_exception).__name__ if ri.last_exception is not None else "none"})
         how = "?"
+        last_set = []
         try:
             for op in ops:
                 o = op["op"]
@@ -163,6 +164,7 @@ def _mk_body(sname, scfg, rig: Rig):
                     ctx.write_event_to_stream(E.TYPES[op["ty"]](uid="%s!%s" % (uid, sname)))
                 elif o == "collect":
                     r = ctx.collect_events(ev, [E.TYPES[t] for t in op["expected"]], buffer_id=op.get("buf"))
+                    last_set = [] if r is None else sorted(E.uid_of(x) for x in r)
                     rig.log({"e": "collect_ret", "step": sname, "uid": uid, "buf": op.get("buf") or "default",
                              "expected": list(op["expected"]),
                              "got": "none" if r is None else "list",
@@ -200,6 +202,13 @@ def _mk_body(sname, scfg, rig: Rig):
                     # idempotent write: the key is derived from the input event
                     k = ("k_%s_%s" % (sname, uid)).replace(".", "_").replace(">", "_").replace(":", "_").replace("(", "_").replace(")", "_")
                     await ctx.store.set(k, 1)
+                elif o == "store_count":
+                    # NOT idempotent: one more key per execution (only for bodies that are never in flight at a quiescence
+                    # point -- no gate -- so that no pause can legitimately make them run twice)
+                    n_ = int(await ctx.store.get("c_" + sname, default=0)) + 1
+                    await ctx.store.set("c_" + sname, n_)
+                    k = ("k_%s_%s_x%d" % (sname, uid, n_)).replace(".", "_").replace(">", "_").replace(":", "_")
+                    await ctx.store.set(k, 1)
                 elif o in ("ret", "stop", "none", "junk"):
                     ov = rig.script.get(base)
                     if ov:
@@ -213,6 +222,9 @@ def _mk_body(sname, scfg, rig: Rig):
                     if o == "stop":
                         how = "stop"
                         from workflows.events import StopEvent
+                        if op.get("result") == "collected":
+                            # the set handed out by collect_events (order-insensitive): what the run computed from it
+                            return StopEvent(result="set:" + ",".join(last_set))
                         return StopEvent(result=op.get("result") or ("r:" + uid))
                     if o == "none":
                         how = "none"
